@@ -38,6 +38,9 @@ var fset = token.NewFileSet()
 // main.go httpStart (framing.go writeServer); also written to the JSON side file for the harness
 var genServerReadTimeoutMs, genServerReadHeaderTimeoutMs int64
 
+// the case list of the Content-Encoding switch of WithOverallContextMiddleware (side file: the harness sends every one of them)
+var genContentEncodings []string
+
 // all function declarations under writer/, by bare name
 var decls = map[string][]*ast.FuncDecl{}
 
@@ -515,7 +518,8 @@ func main() {
 	writeDecoders(&b, root, files, parsed)
 	writeService(&b, root, files, parsed)
 	// side file for the harness: the literal texts that status-deciding code compares error texts with
-	if js, err := json.Marshal(map[string]interface{}{"phrases": phrases, "server_read_timeout_ms": genServerReadTimeoutMs, "server_read_header_timeout_ms": genServerReadHeaderTimeoutMs}); err == nil {
+	if js, err := json.Marshal(map[string]interface{}{"phrases": phrases, "server_read_timeout_ms": genServerReadTimeoutMs, "server_read_header_timeout_ms": genServerReadHeaderTimeoutMs,
+		"content_encodings": genContentEncodings}); err == nil {
 		os.WriteFile(strings.TrimSuffix(outPath, ".v")+".json", js, 0644)
 	}
 	tmp := outPath + ".tmp"
@@ -1477,6 +1481,7 @@ func writeSites(b *strings.Builder, root string, files []string, parsed map[stri
 	}
 	b.WriteString("\n(* the Content-Encoding values WithOverallContextMiddleware accepts; its default branch returns a 400 error *)\n")
 	b.WriteString("Definition gen_content_encodings : list string := " + strList(ceCases) + ".\n")
+	genContentEncodings = ceCases
 	fmt.Fprintf(b, "Definition gen_content_encoding_default_400 : bool := %v.\n", ceDefault400)
 	// golangPprof.go Parse: how many profiles one pprof body yields (appends to the result, and whether one is in a loop)
 	parseAppends, parseInLoop := 0, false
